@@ -34,6 +34,14 @@ CLAIMED = {
          "symbolic-execution engine with OS-boundary effect markers; bounded exhaustive case split (no solver queries)", "DESIGN.md §6 C08"),
  "C12": ("print->read round trips with symbolic data through the real printers (strconv.Quote/QuoteRune/Itoa interpreted or modelled) and the real lexer/parser: every char below U+0250 (quick) / U+1000 (thorough), every string of 1 (quick) / 2 (thorough) such runes, ints of up to 5 / 9 digits, numeric literal spellings of up to 3 symbolic digits in decimal (with underscore), hex, octal, binary, ULL and signed form against a Horner evaluation, lists/arrays of atoms.",
          "symbolic execution of go/ssa + SMT; symbolic runes/digits through printer and reader", "DESIGN.md §6 C12"),
+ "C11": ("Encoder leg: the text produced by the real SexpToJson/jsonHashHelper/jsonArrayHelper for strings containing a symbolic rune (below U+0250 quick / U+3000 thorough), ints, bools, nil, arrays, hashes with symbol keys, string keys and symbolic-rune string keys, nested hashes, is parsed by an RFC 8259 reader written in the harness: it must be well-formed and denote the same data (type name, keys in order, zKeyOrder, values).",
+         "symbolic execution of go/ssa + SMT; symbolic runes through the encoder and a reference JSON reader", "DESIGN.md §6 C11"),
+ "C17": ("Struct declared through the real struct builder, then every field x 6 value kinds x 4 write routes (hset, set dot-path, infix dot assignment, constructor) and 19 scripted programs incl. redeclaration in between: a write is accepted iff the value's kind is the field's declared type; a rejected write reports an error and leaves the instance (fields, values, key count) unchanged. Payloads symbolic, shapes case-split (the solver has little to decide here).",
+         "symbolic-execution engine, bounded case split over field x kind x route; symbolic payloads", "DESIGN.md §6 C17"),
+ "C18": ("Packages nested to depth 2 built by the real package form with a member whose first rune is *symbolic* (below U+0250 quick / U+3000 thorough), member kinds value/function/hash/nested package, get and set routes through the real path walker: lower-case first rune (unicode.IsLower, interpreted) => denied and unchanged, upper-case => granted, nested packages traversable; plus 18 script-level programs (aliases, set, functions defined inside, package->package->hash paths).",
+         "symbolic execution of go/ssa + SMT; symbolic first rune of member names through the real walkers and unicode tables", "DESIGN.md §6 C18"),
+ "C20": ("Nondeterministic map-order mode of the engine: every range over a Go map of <=3 entries visits a case-split permutation. Symbol numbering by NewZlispWithFuncs, the decode leg of JSON/msgpack (makeSortedSlicesFromMap/decodeGoToSexpHelper) and evaluation/printing of small hashes and scopes are run in insertion order and in every other order and must print the same. Natively the replay repeats the scenario 200 times (the runtime randomises the order).",
+         "symbolic-execution engine with map iteration order as a case-split nondeterministic choice", "DESIGN.md §6 C20"),
 }
 NA = {
  "C10": "record<->Go struct conversion is a reflect walk (runtime/unsafe code, no SSA to execute); a model of reflect faithful enough to judge it would itself be the thing under test",
